@@ -39,7 +39,7 @@ PROBES = ["restart_after_other_use", "feature_all_steps", "resim_old_buffers_che
           "kept_bs_module_reused", "feature_object_shared_by_two_hedgers", "attribute_assigned_on_live_object", "relisted_between_calls"]
 
 
-class SimFault(Exception):
+class SimFault(RuntimeError):
     pass
 
 
